@@ -363,8 +363,10 @@ static int run(const uint8_t *tape_, size_t len, struct vp_report *rep, unsigned
     if (render)
         for (size_t k = 0; k < c->npk; k++) {
             struct pkt *p = &c->pk[k];
-            R("  #%zu pid=%u cc=%u %s%s af=%s%u payload=%u%s%s%s%s%s%s\n", k, p->main ? pid : noise_pid, p->cc,
-              p->pusi ? "PUSI " : "", p->main ? (p->pes >= 0 ? "" : "") : "(other pid) ", p->has_af ? "" : "-", p->has_af ? p->afl : 0,
+            char afs[16];
+            if (p->has_af) snprintf(afs, sizeof afs, "%u", p->afl); else snprintf(afs, sizeof afs, "none");
+            R("  #%zu pid=%u cc=%u %s%saf=%s payload=%u%s%s%s%s%s%s\n", k, p->main ? pid : noise_pid, p->cc,
+              p->pusi ? "PUSI " : "", p->main ? "" : "(other pid) ", afs,
               p->pay_len, p->rai ? " RAI" : "", p->di ? " DI" : "", p->pcr_f ? " PCR" : "", p->is_dup ? " DUPLICATE" : "",
               p->deliver ? "" : " [NOT DELIVERED]", p->hdr_octets ? " (pes header octets)" : "");
         }
